@@ -59,6 +59,9 @@ def rule_ids(items):
 
 
 def expected_world(archs, wstates):
+    # an explicit id is a u8 literal: above 255 the declaration does not parse, enabled or not
+    if any((a['id'] is not None and a['id'] > 255) or any(c['id'] is not None and c['id'] > 255 for c in a['comps']) for a in archs):
+        return [0, 99]
     preds = G.world_preds(archs)
     en = [a for a in archs if enabled(a['cfgs'], preds, wstates)]
     # the code assigns the archetype id, then that archetype's component ids, archetype by archetype
